@@ -22,6 +22,14 @@ CLAIMED = {
          "Exploration + fault enumeration: valid generated (matrix, system CSV, user CSV) receive 0-3 catalogue edits; every builder stage must return Ok/Err without panicking, and every accepted dictionary is judged valid (ids inside the matrix in the dimension they index, references resolve, loads, analyses its own words in all modes with all accessors and the partition predicate); small dictionaries are compiled into a sink failing (or short-writing) at EVERY byte offset and the result must be Err. No absence claim.",
          "Known finding F15 (split units that do not concatenate to the key) is excluded from the analysis step by a predicate on the loaded dictionary and pinned by a reproducer. Byte-level fuzzing of the same oracle is the cargo-fuzz target dic_compile (thorough tier only).",
          "DESIGN.md section 4, C06"),
+ "C09": ("property-based testing (proptest): three-mode differential on generated well-formed compound dictionaries against the model's resolved split units",
+         "Exploration: the same text is analysed in C, A and B; C boundaries must be contained in A and B boundaries, unit-less C tokens must reappear unchanged, tokens whose word declares >= 2 units must be replaced by exactly the model-resolved units in order partitioning the parent, and split_into must agree with direct tokenisation (false and an untouched output list for unit-less words); with path-rewrite plugins on only boundary inclusion is checked. No absence claim.",
+         "Compounds are generated well formed (unit keys concatenate to the key); ill-formed declarations are known finding F15 (C06). Words declaring exactly one unit are outside the statement and not generated.",
+         "DESIGN.md section 4, C09"),
+ "C11": ("property-based testing (proptest) with a complete inner enumeration: all 1024 field subsets for every generated word; tokenizer-level differential against the full-field analysis in three call orders",
+         "Exploration: for every word of generated system/user dictionaries (current and legacy formats, boundary-length strings, references, elided forms) and ALL 2^10 subsets each requested field read through its accessor equals the full-load value; analyses under set_subset(S) keep the partition for every S and, when S covers what path-rewrite plugins read (or none is configured), the same tokens and requested field values as the full-field analysis, for the three orders of set_mode/set_subset. No absence claim.",
+         "Subsets are closed by InfoSubset::normalize() as the tokenizer does. Legacy formats are produced by rewriting the version word of freshly compiled dictionaries.",
+         "DESIGN.md section 4, C11"),
  "C20": ("property-based testing (proptest): boundary-value generation of every plugin parameter against an explicit in-range predicate (load succeeds iff predicate); matrix differential and assertion-monitored analysis for accepted configurations",
          "Exploration: matrices n x m with provider ids / costs / inhibited pairs / unk.def lines drawn around {-32769, -32768, -1, 0, n-1, n, n+1, 32767, 32768, 65535, 65536} and POS present/absent x userPOS allow/forbid/missing; loading must return Ok exactly when the predicate holds and never panic; accepted configurations must leave every non-inhibited matrix cell untouched and analyse texts without tripping the matrix index assertions. No absence claim.",
          "Known finding F6a (Simple/Regex id equal to the matrix size accepted) is excluded by predicate and pinned. Left ids are compared with the second matrix dimension, right ids with the first (what the lattice indexes).",
